@@ -47,7 +47,11 @@ def gen_single(rng, idx):
         n = nr()
         return req_for(app, n, kind or rng.choice(KINDS), n if p is None else p)
     kind = ['alternating', 'nested', 'nested2', 'copy', 'construct', 'mixed', 'mapped', 'mapped-nested',
-            'copyhdr'][idx % 9]
+            'copyhdr', 'helpers', 'idle'][idx % 11]
+    if kind == 'helpers':
+        return gen_helpers(rng, idx)
+    if kind == 'idle':
+        return gen_idle(rng, idx)
     a, b = apps[0], apps[1]
     c = apps[2] if len(apps) > 2 else None
     items = []
@@ -111,6 +115,80 @@ def gen_single(rng, idx):
     case = dict(apps=init, threads={1: items}, switches=[])
     case['cfg'] = pick_cfgs(rng, case)
     return kind, case
+
+
+HDR_BEFORE = [('rdstatus',), ('rdhdr', 'X-Own'), ('rdhdr', 'Location'), ('rdhdr', 'Content-Type')]
+
+
+def gen_helpers(rng, idx):
+    """a handler calls another application whose handler leaves through redirect() / abort() / a raised
+    HTTPResponse; the default application in the outer and in the inner role, also through a third
+    application; the outer handler reads its response before and after"""
+    v = (idx // 11) % 6
+    n = [0]
+
+    def rq(app, kind='status', **kw):
+        n[0] += 1
+        r = req_for(app, n[0], kind, n[0])
+        r.update(kw)
+        return r
+    leave = [('redirect', '/moved%d' % idx), ('error', 403 + idx % 3, 'no%d' % idx),
+             ('raise', 202, 'r%d' % idx, {'X-In': 'in%d' % idx, 'Location': '/x'})]
+    skip = []
+    if v == 0:      # default app outside, another app leaves through redirect(): it reads Globals.*
+        inner = with_ops(rq(2), [('sethdr', 'X-In', 'i')], [])
+        inner['out'] = ('redirect', '/moved%d' % idx)
+        skip = [2]      # what redirect() puts into B's response comes from the default app by design
+        outer_app, apps = 0, [0, 2]
+    elif v == 1:    # default app inside, leaving through its own redirect()
+        inner = with_ops(rq(0), [('sethdr', 'X-In', 'i'), ('status', 202)], [])
+        inner['out'] = ('redirect', '/moved%d' % idx)
+        outer_app, apps = 1, [0, 1]
+    elif v == 2:    # default app outside, inner leaves through abort() / raise
+        inner = with_ops(rq(2), [('sethdr', 'X-In', 'i'), ('setcookie', 'ci', 'v')], [])
+        inner['out'] = leave[1 + idx % 2]
+        outer_app, apps = 0, [0, 2]
+    elif v == 3:    # through a third application: 0 -> 2 -> 3, the innermost leaves through abort()/raise
+        inner3 = with_ops(rq(3), [('sethdr', 'X-In', 'i3')], [])
+        inner3['out'] = leave[1 + idx % 2]
+        inner = with_ops(rq(2), own_marks(6), [('nested', inner3)] + HDR_BEFORE)
+        outer_app, apps = 0, [0, 2, 3]
+    elif v == 4:    # 1 -> 2 -> default app, which leaves through redirect()
+        inner0 = with_ops(rq(0), [('sethdr', 'X-In', 'i0')], [])
+        inner0['out'] = ('redirect', '/m%d' % idx)
+        inner = with_ops(rq(2), own_marks(6), [('nested', inner0)] + HDR_BEFORE)
+        outer_app, apps = 1, [0, 1, 2]
+    else:           # default app outside, 2 -> 3 where 3 leaves through redirect() (reads the default app)
+        inner3 = with_ops(rq(3), [('sethdr', 'X-In', 'i3')], [])
+        inner3['out'] = ('redirect', '/m%d' % idx)
+        inner = with_ops(rq(2), own_marks(6), [('nested', inner3)] + HDR_BEFORE)
+        skip = [3]
+        outer_app, apps = 0, [0, 2, 3]
+    # (no multi-valued header and no cookie on the outer response: BaseResponse.copy() inside redirect() chokes on
+    # list values - outside this property - and the model does not copy cookie jars)
+    outer = with_ops(rq(outer_app, rng.choice(['status', 'raised', 'errpage'])), own_marks(4) + HDR_BEFORE,
+                     [('nested', inner)] + HDR_BEFORE + READBACK)
+    case = dict(apps=apps, threads={1: [('serve', outer), ('serve', rq(outer_app, 'status'))]}, switches=[], skip_apps=skip)
+    case['cfg'] = {a: CFGS['plain'] for a in apps}     # no hooks: own_marks' X-Own is what the handlers set
+    return 'helpers', case
+
+
+def gen_idle(rng, idx):
+    """idle request objects: every Ombott() gives its request a fresh environ; storing through one
+    application's idle request must not show in another's (single thread; the worker constructs)"""
+    ids = [5, 6, 7]
+    items = [('construct', 5), ('construct', 6), ('idle', 5), ('idle', 6),
+             ('poke', 5, 'k%d' % idx, 'v5'), ('idle', 6), ('pokeattr', 6, 'foo', 'w6'), ('idle', 5), ('idle', 6),
+             ('construct', 7), ('idle', 5), ('idle', 6), ('idle', 7), ('poke', 7, 'HTTP_X', 'x7'),
+             ('pokeattr', 5, 'bar', 'b5'), ('idle', 7), ('idle', 6), ('idle', 5)]
+    if idx % 2:
+        # an application built inside a serving handler, then looked at from outside
+        r = with_ops(req_for(5, 1, 'status', 1), [], [('construct', 8)])
+        items += [('serve', r), ('idle', 8), ('poke', 8, 'k8', 'v8'), ('idle', 6), ('idle', 7), ('idle', 8)]
+        ids.append(8)
+    case = dict(apps=[], threads={1: items}, switches=[])
+    case['cfg'] = {a: CFGS['plain'] for a in ids}
+    return 'idle', case
 
 
 def pick_cfgs(rng, case):
@@ -195,8 +273,14 @@ def project(case, a):
         for it in items:
             if it[0] == 'serve':
                 mine += flatten(it[1], a)
+                if any(op[0] == 'construct' and op[1] == a for r in tsconc._walk_req(it[1]) for op in r.get('ops') or []):
+                    mine.insert(len(mine) - len(flatten(it[1], a)), ('construct', a))   # built inside that handler
+            elif it[1] == a:
+                mine.append(it)          # construct / poke / pokeattr / idle of this application
         threads[t] = mine
-    return dict(apps=[a], threads=threads, switches=[], cfg={a: (case.get('cfg') or {}).get(a) or {}})
+    built_here = any(it[0] == 'construct' for items in threads.values() for it in items)
+    return dict(apps=[] if built_here else [a], threads=threads, switches=[],
+                cfg={a: (case.get('cfg') or {}).get(a) or {}})
 
 
 def solo_for(case, a, cache):
@@ -221,6 +305,8 @@ def solo_for(case, a, cache):
 def check_case(name, case, w, cache):
     apps = sorted(set(tsconc.case_apps(case)))
     for a in apps:
+        if a in (case.get('skip_apps') or ()):
+            continue      # an application whose handler uses a helper that reads the default application by design
         solo = solo_for(case, a, cache)
         for t in sorted(case['threads']):
             # reads of copies (`c:`) are not compared: the copies must not matter to the original
@@ -319,7 +405,10 @@ class C10(Check):
             'Request.copy() + edits of the copy (PATH_INFO, QUERY_STRING, HTTP_*, cookies) inside a handler and down a '
             'nested chain with header views read before and after, Ombott() constructed inside a handler or on another '
             'thread, several applications failing onto the same shared errors_map object (alternating, nested, '
-            'cross-thread, default app); single thread, and 2-3 threads under the baton scheduler with every single '
+            'cross-thread, default app), inner handlers leaving through redirect() / abort() / a raised HTTPResponse with the '
+            'default app outside and inside (also through a third application) while the outer handler reads its '
+            'response before and after, idle request objects (construct / store through one idle request / inspect '
+            'all); single thread, and 2-3 threads under the baton scheduler with every single '
             'preemption point of thread 1 plus random multi-preemption schedules; every application is compared with '
             'the run in which the others\' operations (and its own copies) are deleted, computed in a forked child of '
             'the untouched process; non-trivial = more than one application takes part')
@@ -348,10 +437,10 @@ class C10(Check):
     def _jobs(self, rng, n):
         seed = rng.randrange(1 << 30)
         jobs = []
-        nsingle = 160 * n
+        nsingle = 132 * n
         for lo in range(0, nsingle, 20):
             jobs.append(('single', seed, lo, lo + 20))
-        nthr = 15 * n
+        nthr = 12 * n
         for i in range(nthr):
             jobs.append(('threads', seed, i, i + 1))
         return jobs
